@@ -1,8 +1,10 @@
 """Manifest metadata (tools/gen_manifest.py turns it into MANIFEST.json)."""
 HOOK_COMMITS = []
 ENGINES = [
-    dict(name='verus-extract', path='/verif/vlib', serves_properties=['C06'],
+    dict(name='verus-extract', path='/verif/vlib', serves_properties=['C04', 'C05', 'C06'],
          kind_free_text='Verus 0.2026.09.13 on functions extracted mechanically from /repo on every run, contracts injected from /verif/units/<unit>/unit.rs'),
+    dict(name='kani-contracts', path='/verif/kani', serves_properties=['C01', 'C02', 'C06'],
+         kind_free_text='Kani 0.68 function contracts (proof_for_contract) and loop-free full-domain harnesses on the real crates of /repo (path dependencies), CBMC 6.11'),
 ]
 NOTES = ('Contract-based deductive verification. exit 0 = all obligations discharged; exit 1 = VIOLATION; '
          'exit 2 = undecided (lost anchor / unsupported construct / timeout), never an alarm. See DESIGN.md.')
@@ -11,6 +13,30 @@ NOT_APPLICABLE = {
     'C13': 'bus state is BTreeMap+VecDeque behind Rc<RefCell> driven by std iterator closures: no Verus model, Kani measured >10 min for 2 outputs x 2 ops (DESIGN.md §7)',
 }
 CHECKS = {
+    'C01': dict(
+        engine='kani-contracts', category='proof',
+        technique='Kani function contracts (requires/ensures on wrappers of the real conv functions) proved by proof_for_contract over the full symbolic domain; spec-function lemmas',
+        text='For each of the 132 ordered pairs of integer formats a contract `amp(r) == rescale(amp(s), sb, db) and r in range` is proved by CBMC for every in-range source value (loop-free code, so the proof is complete, not bounded); the public Sample::to_sample/from_sample dispatch is proved to reach the same function; lossless widening, equilibrium/extremes, order and path independence are proved of the spec function for every width triple.',
+        note='Trusted: Kani/CBMC/SAT solver and their model of Rust integer casts and shifts; the i128 spec functions in kani/common/spec.rs. Custom-width inputs are assumed to satisfy their type invariant.',
+    ),
+    'C02': dict(
+        engine='kani-contracts', category='proof',
+        technique='Kani function contracts with bit-precise IEEE-754 semantics; results compared with pure-integer oracles (round to p significant bits, truncation of the exact product)',
+        text='48 contracts (12 integer formats x {f32,f64}, both directions) proved over every integer value / every float in [-1,1): int->float is the correctly rounded quotient (hence exact when the width fits the mantissa, within [-1,1]), float->int is the truncated exact product and in range; order preservation over two symbolic inputs; exact inverse where exact; f32->f64 exact, f64->f32 nearest-even.',
+        note='Trusted: CBMC float model; integer oracles in kani/common/spec.rs. float->int contracts require the documented domain [-1,1).',
+    ),
+    'C04': dict(
+        engine='verus-extract', category='proof',
+        technique='Verus: contract on the trait Signal (state machine st/inv/trans/exh); every extracted `impl Signal for <adaptor>` verified against it for arbitrary sources',
+        text='Each adaptor next() is verified (on the text extracted from dasp_signal) to make exactly one transition of each source and to yield the corresponding frame operation of the source frame(s); Delay does not touch its source while emitting silence; &mut S forwards the state. Because adaptors are proved for any source meeting the contract and themselves meet it, every finite nesting is covered by composition.',
+        note='Assumed: contracts of the Frame/Sample operations (uninterpreted spec functions, discharged by C03/C01/C02 units where built), Verus closure model, local Iterator stand-in. ClipAmp needs neg(thresh) representable.',
+    ),
+    'C05': dict(
+        engine='verus-extract', category='proof',
+        technique='Verus: exhaustion predicate exh(state) in the Signal trait contract; iterator state machine; inductive lemmas',
+        text='is_exhausted of every adaptor is verified equal to the specified combination of its sources (OR for combining adaptors, countdown for delay); FromIterator/FromInterleavedSamplesIterator are verified to yield the look-ahead, pull exactly one more item (N samples, dropping a partial frame) and to be a silent fixpoint once exhausted (no fused-iterator assumption); UntilExhausted, Take, IntoInterleavedSamples::next_sample (recursive, with decreases) are verified; lemmas by induction give "exactly the iterator items, then equilibrium forever".',
+        note='Same trusted base as C04. `lift` itself (FnOnce composition) is covered through its parts only.',
+    ),
     'C06': dict(
         engine='verus-extract',
         category='proof',
